@@ -479,6 +479,100 @@ def r_alloca(cg, rep, rule='R04.7'):
     rep.ob(rule, '%s:%s:bottom-moves-by-same-amount-and-is-returned' % (U, fnn), okb, 'the alloca bottom pointer is updated to %r and %%rax is %r; both must be bottom - rounded size (the address of the new block)' % ([x[2] for x in bs], s0.reg['rax']), where=where, facts=facts)
 
 
+def r_vla_size(P, rep):
+    """a VLA object is allocated (and sizeof answered) from the hidden size variable of its type; compute_vla_size must, every time it is
+    asked, produce code that assigns that variable = length * element size, inner dimensions first - whatever the type object already carries"""
+    from ..interp import Interp
+    from ..lib_types import Types
+    rep.rule('R04.12', 'compute_vla_size: for every VLA dimension the returned expression assigns the type\'s size variable = vla_len * (element size | inner size variable), inner dimension first, on every call (also when the type was used before)', floor=4)
+    pu = P.unit('parse.c')
+    fn = 'compute_vla_size'
+    if fn not in pu.functions:
+        rep.undecided('R04.12', 'parse.c:%s' % fn, 'compute_vla_size vanished'); return
+    where = 'parse.c:%d' % pu.fn(fn).line
+    E = pu.enums
+    T = Types(P)
+    for depth in (1, 2):
+        for stale in (False, True):
+            key = 'parse.c:%s:%s/%s' % (fn, 'vla' if depth == 1 else 'vla-of-vla', 'type-used-before' if stale else 'first-use')
+            it = Interp(P, pu, {'opaque': ['new_unique_name', 'error_tok'], 'rec_limit': 4, 'models': {'new_lvar': lambda it_, ctx, n, a: Obj('Obj', lazy=False, label=ctx.fresh('tmp'), fields={'ty': a[1], 'name': a[0]})}})
+            box = {}
+
+            def mk(ctx, depth=depth, stale=stale):
+                it.ctx = ctx
+                el = T.make(it, 'int')
+                tys = []
+                base = el
+                for d in range(depth):
+                    t = Obj('Type', lazy=False, label='vla%d' % d)
+                    t.fields.update({'kind': E['TY_VLA'], 'size': 8, 'align': 8, 'base': base, 'vla_len': Obj('Node', lazy=False, label='len%d' % d, fields={'kind': E['ND_VAR']}),
+                                     'vla_size': Obj('Obj', lazy=False, label='stale%d' % d, fields={'name': ''}) if stale else 0})
+                    tys.append(t); base = t
+                box['tys'] = tys
+                return [tys[-1], Obj('Token', lazy=True, label='tok')]
+            outs = [out[1] for ctx, out in it.explore(fn, mk) if out[0] == 'ret']
+            if len(outs) != 1:
+                rep.undecided('R04.12', key, '%d returning paths' % len(outs), where=where); continue
+            # evaluation-order list of assignments in the comma tree
+            seq = []
+
+            def walk(n, d=0):
+                n = it.settle(n) if isinstance(n, View) else n
+                if not isinstance(n, Obj) or d > 30:
+                    return
+                k = n.fields.get('kind')
+                if k == E['ND_COMMA']:
+                    walk(n.fields.get('lhs'), d + 1); walk(n.fields.get('rhs'), d + 1)
+                elif k == E['ND_ASSIGN']:
+                    seq.append(n)
+            walk(outs[0])
+            tys = box['tys']
+            msgs = []
+            if len(seq) != len(tys):
+                msgs.append('the expression contains %d size assignments for %d variable dimensions: a dimension whose size variable is not (re)computed here keeps whatever an earlier - possibly never executed - declaration stored' % (len(seq), len(tys)))
+            else:
+                for i, (a, t) in enumerate(zip(seq, tys)):
+                    lhs = a.fields.get('lhs'); rhs = a.fields.get('rhs')
+                    v = lhs.fields.get('var') if isinstance(lhs, Obj) and lhs.fields.get('kind') == E['ND_VAR'] else None
+                    fin = t.fields.get('vla_size')
+                    if v is None or v is not fin:
+                        msgs.append('assignment %d does not store to the size variable its type ends up with' % (i + 1)); continue
+                    if not (isinstance(rhs, Obj) and rhs.fields.get('kind') == E['ND_MUL'] and rhs.fields.get('lhs') is t.fields['vla_len']):
+                        msgs.append('the size of dimension %d is not vla_len * element size' % (i + 1)); continue
+                    r = rhs.fields.get('rhs')
+                    if i == 0:
+                        okr = isinstance(r, Obj) and r.fields.get('kind') == E['ND_NUM'] and r.fields.get('val') == 4
+                    else:
+                        okr = isinstance(r, Obj) and r.fields.get('kind') == E['ND_VAR'] and r.fields.get('var') is tys[i - 1].fields.get('vla_size')
+                    if not okr:
+                        msgs.append('dimension %d is not scaled by %s' % (i + 1, 'sizeof(element)' if i == 0 else 'the size variable of the inner dimension'))
+            rep.ob('R04.12', key, not msgs, '; '.join(msgs), where=where)
+
+
+def r_bitfield_unit(P, rep):
+    """the bit-field accessors load and store one unit of the declared type at member->offset (R04.2/R04.3); that designates the field's
+    bits only if the layout puts [bit_offset, bit_offset+bit_width) inside that unit. Decided on C08's summary of the struct layout step
+    (struct_decl interpreted per member class, evaluated on the layout grid)"""
+    from ..report import Report
+    from . import c08
+    rep.rule('R04.11', 'struct layout keeps every bit-field inside the storage unit the code generator accesses: 0 <= bit_offset and bit_offset + bit_width <= 8 * sizeof(declared type), packed or not', floor=2)
+    pu = P.unit('parse.c')
+    sub = Report('C08')
+    sub.rule('R08.3', '', 1)
+    c08.layout_fn(P, pu, sub, 'struct_decl', False)
+    n = 0
+    for o in sub.obs:
+        if o['key'].endswith('/unit-fit'):
+            n += 1
+            key = o['key'].split(':', 1)[1]
+            if o['verdict'] == 'undecided':
+                rep.undecided('R04.11', key, o['what'], where=o['where'])
+            else:
+                rep.ob('R04.11', key, o['verdict'] == 'holds', o['what'], where=o['where'], facts=o['facts'])
+    if n == 0:
+        rep.undecided('R04.11', 'parse.c:struct_decl:unit-fit', 'the struct layout step could not be summarised for bit-field members (see C08 R08.3)')
+
+
 def run(P, rep, tier):
     cg = wrap(CG(P))
     rep.explanation = ('Address/width/mask arithmetic of every lvalue form, decided as formulas: the code generator is abstractly interpreted on abstract nodes whose layout fields '
@@ -493,6 +587,8 @@ def run(P, rep, tier):
     r_frame(cg, P, rep)
     rep.rule('R04.7', 'alloca: size rounded to 16, pending temporaries relocated byte for byte over the full count, %rsp and the bottom pointer move together, block address returned', floor=5)
     r_alloca(cg, rep)
+    r_bitfield_unit(P, rep)
+    r_vla_size(P, rep)
     from ..lib_types import r_pointer_scaling
     rep.rule('R04.10', 'element addresses: p+n / p[n] / p-n scale the index by the element size in 64-bit arithmetic (shared with R01.3)', floor=9)
     r_pointer_scaling(P, rep, 'R04.10')
